@@ -401,6 +401,11 @@ func runC20(t *testing.T, c simrt.Chooser, o Opts) *Out {
 	if expectEnd && (!closed || res.End != simrt.EndDriverReturned) {
 		out.violate("C20.termination", "no-close", "error channel not closed after fatal outcome/cancel: end=%v calls=%d script=%q blocked=%v", res.End, k, sc.Script, res.Blocked)
 	}
+	if !expectEnd && !closed && res.End != simrt.EndDriverReturned {
+		// every generated scenario ends with a fatal outcome or a cancel at a read call: a run that
+		// reaches neither stopped reading although traffic was waiting
+		out.violate("C20.stalled", "stopped-reading", "the receiver stopped reading after %d of %d scripted outcomes without a fatal outcome or a cancel (run ended: %v); script %q", k, len(script), res.End, sc.Script)
+	}
 	if !expectEnd && closed {
 		out.violate("C20.termination", "early-close", "error channel closed although neither a fatal outcome nor a cancel occurred: script=%q calls=%d", sc.Script, k)
 	}
